@@ -38,7 +38,8 @@ XOPTS = {'jacobi': {'iterations', 'omega', 'withrho'}, 'block_jacobi': {'iterati
          'chebyshev': {'iterations', 'degree', 'lower_bound', 'upper_bound'},
          'jacobi_ne': {'iterations', 'omega', 'withrho'}, 'gauss_seidel_ne': {'iterations', 'sweep', 'omega'},
          'gauss_seidel_nr': {'iterations', 'sweep', 'omega'}, 'gauss_seidel': {'iterations', 'sweep'},
-         'sor': {'iterations', 'sweep', 'omega'}}
+         'sor': {'iterations', 'sweep', 'omega'},
+         'schwarz': {'iterations', 'sweep'}}          # extension E51 (op c16y_relax; default subdomains / blocks of the setup)
 # which recorded spectral-radius estimate a setup divides by (block_jacobi: by block size)
 XRHO = {'jacobi': 'rho_D_inv_A', 'jacobi_ne': 'rho_D_inv_A', 'richardson': 'approximate_spectral_radius',
         'chebyshev': 'approximate_spectral_radius'}
@@ -715,6 +716,15 @@ class RecSpy:
             if orig is not None:
                 self.saved[nm] = orig
                 setattr(smoothing, nm, mk(nm, orig))
+        # extension E51: the tuple relaxation.schwarz_parameters hands to setup_schwarz (and to relaxation.schwarz)
+        from pyamg.relaxation import relaxation as _rl
+        self.rl, self.sp_orig = _rl, _rl.schwarz_parameters
+
+        def sp(*a, **k):
+            r = self.sp_orig(*a, **k)
+            self.last['schwarz_parameters'] = {'value': tuple(np.array(v, copy=True) for v in r), 'args': [], 'kwargs': {}}
+            return r
+        _rl.schwarz_parameters = sp
         return self
 
     def take(self):
@@ -724,6 +734,7 @@ class RecSpy:
     def __exit__(self, *exc):
         for nm, orig in self.saved.items():
             setattr(self.mod, nm, orig)
+        self.rl.schwarz_parameters = self.sp_orig
         return False
 
 
@@ -871,12 +882,17 @@ def judge_batch(ctx, items, seed=0):
         for (ci, line) in res.get('xrelax', []):
             quad_lines.append(line)
             quad_index.append((it, ci, 'xrelax'))
+        for (ci, kind, line) in res.get('xhyp', []):
+            quad_lines.append(line)
+            quad_index.append((it, ci, 'xhyp:' + kind))
     if quad_lines:
         qr = lean(ctx, quad_lines)
         for (it, ci, what), r in zip(quad_index, qr):
             mats, spec, calls = items[it]
             if what == 'quad':
                 _judge_energy(ctx, mats, spec, calls, ci, pending[it], r)
+            elif what.startswith('xhyp:'):
+                _judge_xhyp(ctx, mats, spec, calls, ci, pending[it], r, what[5:])
             else:
                 _judge_xrelax(ctx, mats, spec, calls, ci, pending[it], r)
 
@@ -959,7 +975,7 @@ def _judge_one(ctx, mats, spec, calls, inf, seed):
 
     model, mcount = _parse_run(inf['run'])
     impl = run_impl(mats, spec, calls, seed)
-    out = {'impl': impl, 'quad': [], 'xrelax': [], 'facts': facts, 'case': case, 'hpd': hpd}
+    out = {'impl': impl, 'quad': [], 'xrelax': [], 'xhyp': [], 'facts': facts, 'case': case, 'hpd': hpd}
 
     # ---- constructor
     if model == 'ValueError':
@@ -998,6 +1014,10 @@ def _judge_one(ctx, mats, spec, calls, inf, seed):
         # ---------- correspondence with the extended relaxation model (second Lean batch: it needs the recorded inputs)
         if name in XOPTS and modelled_x(spec) and not mixed and fk['nnz'] > 0:
             out['xrelax'].append((ci, xrelax_line(Ak, spec, c, r.get('rec') or {})))
+            if c['k'] == 0 and hpd and not Ak.cplx and not np.iscomplexobj(c['b']) and r['exc'] is None:
+                # extension E51: the per-instance hypotheses of the energy theorems for schwarz / block storage / chebyshev
+                for kind, line in xhyp_lines(Ak, spec, r.get('rec') or {}):
+                    out['xhyp'].append((ci, kind, line))
         # ---------- correspondence with the model
         if undefined and multi:
             pass
@@ -1212,8 +1232,73 @@ def xrelax_line(Ak, spec, c, rec):
         bsr = f'{S.shape[0] // bs} {enc_ints(S.indptr)} {enc_ints(S.indices)} {enc_vec(S.data.ravel(), cplx)}'
     else:
         bsr = '0 - - -'
+    if name == 'schwarz':
+        # extension E51: the recorded Schwarz parameters (subdomain, subdomain_ptr, inv_subblock, inv_subblock_ptr)
+        if 'schwarz_parameters' in rec:
+            sj, sp_, tx, tp = rec['schwarz_parameters']['value']
+            spar = f'{enc_ints(sj)} {enc_ints(sp_)} {enc_vec(tx, cplx)} {enc_ints(tp)}'
+        else:
+            spar = '- - - -'
+        return (f'c16y_relax {f} {name} {o} {rho} {bs} {dinv} {cheb} {spar} {c["shape"]} {enc_vec(c["b"], cplx)} '
+                f'{enc_csr(Ak.csr(), cplx)} {bsr}')
     return (f'ext_c16_relax {f} {name} {o} {rho} {bs} {dinv} {cheb} {c["shape"]} {enc_vec(c["b"], cplx)} '
             f'{enc_csr(Ak.csr(), cplx)} {bsr}')
+
+
+def xhyp_lines(Ak, spec, rec):
+    """extension E51: Lean lines evaluating, exactly on the recorded inputs, the hypotheses of relax_schwarz_energy
+    (`A|_d T_d = I`), relax_block_gauss_seidel_energy / relax_block_jacobi_energy (`A_ii Dinv_i = I`) and relax_chebyshev_energy
+    (`|1 - lambda p(lambda)| <= 1` at the floating-point eigenvalues of A); real symmetric positive definite instances only"""
+    name = spec['arg']
+    S = Ak.sparse()
+    bs = _xrelax_bs(S)
+    out = []
+    if name == 'schwarz' and 'schwarz_parameters' in rec:
+        sj, sp_, tx, tp = rec['schwarz_parameters']['value']
+        out.append(('schwarz', f'c16y_hyp_schwarz {enc_csr(Ak.csr(), False)} {enc_ints(sj)} {enc_ints(sp_)} {enc_vec(tx, False)} {enc_ints(tp)}'))
+    if name in ('block_jacobi', 'block_gauss_seidel') and bs > 1 and 'get_block_diag' in rec:
+        out.append(('block', f'c16y_hyp_block {S.shape[0] // bs} {bs} {enc_ints(S.indptr)} {enc_ints(S.indices)} '
+                             f'{enc_vec(S.data.ravel(), False)} {enc_vec(rec["get_block_diag"]["value"].ravel(), False)}'))
+    if name == 'chebyshev' and 'chebyshev_polynomial_coefficients' in rec and Ak.n > 0:
+        lam = np.linalg.eigvalsh(Ak.M)
+        out.append(('cheb', f'c16y_poly {enc_vec(rec["chebyshev_polynomial_coefficients"]["value"], False)} {enc_vec(lam, False)}'))
+    return out
+
+
+def _judge_xhyp(ctx, mats, spec, calls, ci, res, reply, kind):
+    """features only: does the energy theorem of E51 apply to this instance? (the energy functional of the real output is
+    judged on every Hermitian positive definite instance regardless, by _judge_energy)"""
+    name = spec['arg']
+    opts = spec.get('opts') or {}
+    Ak = mats[calls[ci]['k']]
+    rec = res['impl']['results'][ci].get('rec') or {}
+    if kind == 'schwarz':
+        ok, defect = reply.split('#')
+        good = ok == 'true' and Fraction(defect) <= Fraction(1, 10 ** 8)
+        ctx.feat('thm-hyp:schwarz-exact-blocks-' + ('holds' if good else 'fails'))
+    elif kind == 'block':
+        good = Fraction(reply) <= Fraction(1, 10 ** 8)
+        if name == 'block_jacobi' and good:
+            S = Ak.sparse()
+            bs = _xrelax_bs(S)
+            om = float(opts.get('omega', 1.0))
+            if opts.get('withrho', True):
+                om = om / float(rec['rho_block_D_inv_A']['value']) if 'rho_block_D_inv_A' in rec else float('nan')
+            M = Ak.M
+            n = Ak.n
+            Db = np.zeros_like(M)
+            for i in range(0, n, bs):
+                Db[i:i + bs, i:i + bs] = M[i:i + bs, i:i + bs]
+            L = np.linalg.cholesky(Db)
+            lam = float(np.linalg.eigvalsh(np.linalg.solve(L, np.linalg.solve(L, M).T)).max())
+            good = bool(np.isfinite(om) and 0 <= om and om * lam <= 2 * (1 - 1e-9))
+            ctx.feat('thm-hyp:block-damping-bound-' + ('holds' if good else 'fails'))
+        else:
+            ctx.feat(f'thm-hyp:block-inverse-exact-{"holds" if good else "fails"}:{name}')
+    elif kind == 'cheb':
+        q = dec_fvec(reply)
+        good = bool(q) and all(abs(v) <= 1 + Fraction(1, 10 ** 9) for v in q)
+        ctx.feat('thm-hyp:chebyshev-spectral-condition-' + ('holds' if good else 'fails'))
 
 
 def _judge_xrelax(ctx, mats, spec, calls, ci, res, reply):
@@ -1265,6 +1350,8 @@ def _judge_xrelax(ctx, mats, spec, calls, ci, res, reply):
     ctx.feat('xrelax-agrees:' + name)
     if _xrelax_bs(Ak.sparse()) > 1:
         ctx.feat('xrelax-agrees-block-storage:' + name)
+    if Ak.cplx and res['hpd'] and calls[ci]['k'] == 0 and name in ('gauss_seidel', 'sor', 'jacobi'):
+        ctx.feat('thm:complex-energy-clause:' + name)      # relax_gs/sor/jacobi_energy_complex (E51) cover this run
     # what the recorded calls were asked for (the arguments the model cannot see)
     opts = spec.get('opts') or {}
     if name == 'chebyshev' and 'chebyshev_polynomial_coefficients' in rec and 'approximate_spectral_radius' in rec:
@@ -1399,6 +1486,15 @@ def build_items(ctx, nmat, quick):
             if spec['arg'] in ('block_jacobi', 'block_gauss_seidel') and mat_x.n >= 2 and mat_x.n % 2 == 0 and rx.random() < 0.6:
                 fmt = 'bsr2'                                    # the block kernels proper (2x2 blocks)
             items.append(([Mat(mat_x.M, mat_x.cls, mat_x.explicit, fmt)], spec, calls))
+        # extension E51: schwarz as coarse solver (model C16R.relaxSolveR on the recorded Schwarz parameters), own stream
+        h = hashlib.sha1(b'E51' + mat_x.M.tobytes() + repr((ctx.seed, t, mat_x.M.shape)).encode()).digest()
+        ry = np.random.default_rng(int.from_bytes(h[:8], 'little'))
+        if ry.random() < (0.5 if quick else 0.8):
+            spec = {'arg': 'schwarz', 'opts': {'sweep': str(ry.choice(['forward', 'backward', 'symmetric'])), 'iterations': int(ry.integers(1, 4))}}
+            if ry.random() < 0.25:
+                spec = {'arg': 'schwarz', 'opts': {'sweep': str(ry.choice(['backward', 'symmetric']))}}
+            fmt = mat_x.fmt if mat_x.fmt in ('csr', 'bsr', 'bsr2') else 'csr'
+            items.append(([Mat(mat_x.M, mat_x.cls, mat_x.explicit, fmt)], spec, [c for c in gen_history(ry, mat_x, spec)]))
     return items
 
 
@@ -1437,7 +1533,9 @@ def fixed_items():
                {'arg': 'gauss_seidel_ne', 'opts': {'omega': 1.5, 'sweep': 'symmetric', 'iterations': 2}},
                {'arg': 'gauss_seidel_ne', 'opts': {'sweep': 'backward'}},
                {'arg': 'gauss_seidel_nr', 'opts': {'omega': 0.5, 'sweep': 'symmetric', 'iterations': 2}},
-               {'arg': 'gauss_seidel_nr', 'opts': {'sweep': 'backward', 'iterations': 3}}):
+               {'arg': 'gauss_seidel_nr', 'opts': {'sweep': 'backward', 'iterations': 3}},
+               {'arg': 'schwarz'}, {'arg': 'schwarz', 'opts': {'sweep': 'backward', 'iterations': 2}},
+               {'arg': 'schwarz', 'opts': {'sweep': 'symmetric', 'iterations': 1}}):
         for fmt in ('csr', 'bsr2'):
             out.append(([Mat(P, 'spd', (), fmt)], sp, [dict(c) for c in xcalls]))
         out.append(([Mat(N4, 'nonsym', (), 'csr')], sp, [dict(c) for c in xcalls]))
